@@ -1,6 +1,6 @@
 (** C04 — the fixed file is exactly the fixed tree; templated code is untouched. Pinned statements only. *)
 From Sq Require Import Base.Bytes Patch.Model Patch.Proofs Patch.Legacy Patch.SpanModel Patch.SpanProofs.
-From Sq Require Import Patch.TemplatedModel Patch.TemplatedWeave Patch.TemplatedTree Patch.TemplatedRender.
+From Sq Require Import Patch.TemplatedModel Patch.TemplatedWeave Patch.TemplatedTree Patch.TemplatedRender Patch.TemplatedFacts.
 From Sq Require Templ.Model Templ.ProcProofs.
 
 (** What [fix_string] writes for ANY list of patches is the source with the normalised patches
@@ -70,6 +70,15 @@ Theorem C04_templated_tree_side : forall tf s ds, dpatches tf s = Some ds ->
   splice_r (tpl tf) (t0 (seg_pos s)) (t1 (seg_pos s)) (map tpatch ds) = raw s.
 Proof. exact dpatches_T. Qed.
 Print Assumptions C04_templated_tree_side.
+
+(** What [tree_ok] says about the placeholders themselves: no patch of the final tree reaches into the source
+    text of a templated slice (the conflict filter, C04_conflict_verdict, did its job). *)
+Theorem C04_templated_untouched : forall tf sl t p k,
+  Templ.ProcProofs.tiling (src tf) (tpl tf) sl 0 0 -> tree_ok tf sl t = true ->
+  In p (iter_patches tf t) -> In k sl -> Templ.Model.ty k = Templ.Model.STempl ->
+  p_e p <= Templ.Model.s0 k \/ Templ.Model.s1 k <= p_s p.
+Proof. exact tree_ok_untouched. Qed.
+Print Assumptions C04_templated_untouched.
 
 (** The same with the placeholder templater in the loop (Templ/Model.v, C15): when the templated file is what
     [process] makes of the source (captures [caps] as the regex engine returned them, contract [caps_ok]) and the
